@@ -43,13 +43,13 @@ Proof.
 Qed.
 
 (* ====================================================================== op 10: Dot.Sprint *)
-Definition parse_sprint : parser (graph * list Z * Z * list (list Z) * Z * list (list attr) * Z * list (list (list attr)) * Z * list Z * Z) :=
+Definition parse_sprint : parser (graph * list Z * Z * list (list Z) * Z * list (list attr) * Z * list (list (list attr)) * Z * list Z * Z * graph) :=
   do g <- p_graph; do name <- p_Zs;
   do haslabel <- pZ; do labels <- plist_any p_Zs;
   do hasn <- pZ; do nattrs <- plist_any p_attrs;
   do hase <- pZ; do eattrs <- plist_any (plist_any p_attrs);
-  do status <- pZ; do obs <- p_Zs; do pure <- pZ;
-  pend (g, name, haslabel, labels, hasn, nattrs, hase, eattrs, status, obs, pure).
+  do status <- pZ; do obs <- p_Zs; do pure <- pZ; do g' <- p_graph;
+  pend (g, name, haslabel, labels, hasn, nattrs, hase, eattrs, status, obs, pure, g').
 
 (* the Dot value the line describes: a has-flag 0 stands for a nil function; tables are indexed by
    node (and edge index), missing rows read as empty *)
@@ -93,7 +93,8 @@ Qed.
 
 Definition sprint_case_ok (rest : list Z) : Prop :=
   exists g name haslabel labels hasn nattrs hase eattrs status obs,
-    parse_sprint rest = Some ((g, name, haslabel, labels, hasn, nattrs, hase, eattrs, status, obs, 1), []) /\
+    (* pure = 1 and the argument graph after the call is the argument graph *)
+    parse_sprint rest = Some ((g, name, haslabel, labels, hasn, nattrs, hase, eattrs, status, obs, 1, g), []) /\
     g_wf g /\
     let d := sprint_opts name haslabel labels hasn nattrs hase eattrs in
     let stmts := dot_stmts d (g_out g) (g_n g) in
@@ -114,7 +115,7 @@ Proof.
   split; [reflexivity|]. split; [reflexivity|].
   set (d := sprint_opts a0 a1 a2 a3 a4 a5 a6) in *.
   destruct (dot_sprint d (g_out a) (g_n a)) as [b|] eqn:ES; ff_split W;
-    repeat match goal with H : (_ =? _) = true |- _ => apply Z.eqb_eq in H end; subst;
+    repeat match goal with H : (_ =? _) = true |- _ => apply Z.eqb_eq in H end; geq; subst;
     exists a, a0, a1, a2, a3, a4, a5, a6.
   - exists 0, a8. split; [unfold parse_sprint; prebuild|]. split; [exact Ewf|]. cbv zeta. fold d.
     split; [apply dot_nodes_once|]. split; [apply dot_edges_once|]. left. split; [reflexivity|].
